@@ -27,10 +27,10 @@ func init() {
 			"ofmany/pos>=size", "ofmany/size=0", "ofmany/empty-sub", "builder/extend-pos>=size", "builder/extend-size=0", "builder/extend-empty", "builder/set-0", "builder/set-1", "builder/presized", "roundtrip/trailing-zero-words"},
 		Families: func(c *mon.Config) []mon.Family {
 			return []mon.Family{
-				{Name: "of", N: c.Pick(20000, 800000), Run: c12Of},
-				{Name: "roundtrip-zoo", N: c.Pick(4000, 150000), Run: c12RoundTrip},
-				{Name: "ofmany", N: c.Pick(20000, 800000), Run: c12OfMany},
-				{Name: "builder", N: c.Pick(30000, 1200000), Run: c12Builder},
+				{Name: "of", N: c.Pick(40000, 4000000), Run: c12Of},
+				{Name: "roundtrip-zoo", N: c.Pick(10000, 1500000), Run: c12RoundTrip},
+				{Name: "ofmany", N: c.Pick(40000, 8000000), Run: c12OfMany},
+				{Name: "builder", N: c.Pick(60000, 10000000), Run: c12Builder},
 			}
 		},
 	})
